@@ -544,6 +544,10 @@ impl Ctrl {
             .unwrap_or_else(|p| p.into_inner());
     }
 
+    pub fn change_count(&self) -> u64 {
+        self.lock().change as u64
+    }
+
     pub fn timer_is_held(&self) -> bool {
         Self::timer_held(&self.lock())
     }
